@@ -1353,3 +1353,31 @@ Proof.
   - rewrite <- dfs_log_fst with (calls := []). now rewrite H.
   - eapply (dfs_log_calls fuel (find_preds s fs) limit _ _ _ [] roots out); eauto; try constructor; try (intros c []).
 Qed.
+
+(* ------------------------------------------------------------------ the generated depth arithmetic *)
+Lemma findRoots_stop_spec limit d :
+  findRoots_stop limit (Z.of_nat d) = ((0 <? limit)%Z && (Z.of_nat d =? limit)%Z)%bool.
+Proof. unfold findRoots_stop. now rewrite Z.gtb_ltb. Qed.
+
+Lemma findRoots_push_depth_spec limit d :
+  Z.to_nat (findRoots_push_depth limit (Z.of_nat d)) = S d.
+Proof. unfold findRoots_push_depth. lia. Qed.
+
+Lemma findRoots_start_depth_spec : Z.to_nat findRoots_start_depth = 0.
+Proof. reflexivity. Qed.
+
+Lemma dfs_log_g_eq fuel fp limit : forall st V R calls,
+  dfs_log_g fuel fp limit st V R calls = dfs_log fuel fp limit st V R calls.
+Proof.
+  induction fuel as [|fuel IH]; intros st V R calls; cbn [dfs_log_g dfs_log]; [reflexivity|].
+  destruct st as [|[cur d] rest]; [reflexivity|].
+  rewrite findRoots_stop_spec, findRoots_push_depth_spec.
+  destruct (mem (d_id cur) V); [apply IH|].
+  destruct ((0 <? limit)%Z && (Z.of_nat d =? limit)%Z)%bool; [apply IH|].
+  destruct (fp (d_id cur)); apply IH.
+Qed.
+
+(* what the runner executes is the proved loop *)
+Lemma find_roots_run_eq fuel s fs limit node :
+  find_roots_run fuel (find_preds s fs) limit node = find_roots_log fuel s fs limit node.
+Proof. unfold find_roots_run, find_roots_log. rewrite findRoots_start_depth_spec. apply dfs_log_g_eq. Qed.
